@@ -977,9 +977,13 @@ def squeeze(ctx: Ctx, a: Arr, axis=None):
             continue
         if isinstance(d, int):
             if d != 1:
+                if axis is not None:
+                    raise PyRaise("ValueError", "cannot select an axis to squeeze out which has size not equal to one", ctx.cur_line)
                 keep.append(ax)
         else:
             if not ctx.branch(T.eq(d, 1), "squeeze-unit"):
+                if axis is not None:
+                    raise PyRaise("ValueError", "cannot select an axis to squeeze out which has size not equal to one", ctx.cur_line)
                 keep.append(ax)
     shape = tuple(a.shape[ax] for ax in keep)
 
@@ -1662,5 +1666,105 @@ def np_insert(it, *pos, **kw):
     raise PathAbort("np.insert", it.ctx.cur_line)
 
 
-def accumarray(it, *pos, **kw):
-    raise PathAbort("accumarray", it.ctx.cur_line)
+class SymBag:
+    """The multiset of values of one aggregation group, as seen by a callable reducer: only
+    its size is modelled (len(x)); any other use aborts the path."""
+
+    def __init__(self, count):
+        self.count = count
+
+
+AGG = {}
+
+
+def accumarray(it, group_idx, a, size=None, func="sum", **kw):
+    """numpy_groupies.aggregate(group_idx, a, size=G, func=...).
+
+    Result acc[g] for 0 <= g < G.  Assumed facts (true of every reducer over finite groups),
+    Skolemised so that no nested quantifier reaches the solver:
+      * cnt(g) = number of members; cnt(idx[k]) >= 1; cnt(g) >= 1 => mem1(g) is a member;
+      * a group whose only member is k has cnt = 1 and acc = F1(a[k]), otherwise oth(k) is
+        another member of k's group;
+      * two members k1 < k2 of a group without a third member: cnt = 2 and acc = F2(a[k1], a[k2]),
+        otherwise thr(k1, k2) is a third member;
+      * an empty group has acc = fill value 0.
+    F1/F2: sum -> x, x+y; max/min accordingly; a callable reducer is applied to a SymBag whose
+    len() is cnt(g) (so count predicates such as `len(x) == 2` are decided)."""
+    ctx = it.ctx
+    if not is_arr(group_idx) or group_idx.ndim != 1:
+        raise PathAbort("accumarray: group index must be a vector", ctx.cur_line)
+    idx = snap(group_idx)
+    n = idx.shape[0]
+    if T.is_scalar(a):
+        aval = lambda k: a
+        adt = T.sort_of(a)
+    else:
+        a = snap(a)
+        if a.ndim != 1:
+            raise PathAbort("accumarray: values must be a vector", ctx.cur_line)
+        ctx.raise_unless(T.eq(a.shape[0], n), "ValueError", "group_idx and a must be of the same length")
+        aval = lambda k: a.fn(k)
+        adt = a.dtype
+    G = size
+    if G is None:
+        raise PathAbort("accumarray without size", ctx.cur_line)
+    if not _known_in_range(idx, G):
+        t = T.fresh_int("t")
+        ctx.oblige(T.ForAll([t], z3.Implies(z3.And(0 <= t, T.lt(t, n)), z3.And(0 <= T.tz(idx.fn(t)), T.tz(T.lt(idx.fn(t), G))))),
+                   "accumarray-group-index-in-range", kind="index")
+    cnt = T.fresh_fun("gcnt", I, I)
+    mem1 = T.fresh_fun("gmem", I, I)
+    oth = T.fresh_fun("goth", I, I)
+    thr = T.fresh_fun("gthr", I, I, I)
+    from . import interp as _I
+    kind = func if isinstance(func, str) else ("sum" if isinstance(func, _I.Builtin) and func.name == "sum" else
+                                               ("max" if isinstance(func, _I.Builtin) and func.name == "max" else
+                                                ("min" if isinstance(func, _I.Builtin) and func.name == "min" else "callable")))
+    rdt = "real" if kind in ("sum", "max", "min") and adt != "int" else ("int" if kind in ("sum", "max", "min") else None)
+    if kind == "callable":
+        probe = it.call(func, [SymBag(T.fresh_int("c"))], {})
+        rdt = T.sort_of(probe) if T.is_scalar(probe) else None
+        if rdt is None:
+            raise PathAbort("accumarray: reducer result is not a scalar", ctx.cur_line)
+    acc = T.fresh_fun("acc", I, z3sort(rdt))
+    g, k, k2 = T.fresh_int("g"), T.fresh_int("k"), T.fresh_int("k2")
+    tag = "numpy_groupies:aggregate(group sums / counts for groups with 0, 1 or 2 members)"
+
+    def F1(x):
+        if kind in ("sum", "max", "min"):
+            return cast_elem(x, rdt)
+        return cast_elem(it.call(func, [SymBag(1)], {}), rdt)
+
+    def F2(x, y):
+        if kind == "sum":
+            return T.add(cast_elem(x, rdt), cast_elem(y, rdt))
+        if kind == "max":
+            return T.smax(x, y)
+        if kind == "min":
+            return T.smin(x, y)
+        return cast_elem(it.call(func, [SymBag(2)], {}), rdt)
+
+    gk = lambda kk: T.tz(idx.fn(kk))
+    ctx.assume(T.ForAll([g], z3.And(cnt(g) >= 0, z3.Implies(cnt(g) >= 1, z3.And(0 <= mem1(g), T.lt(mem1(g), n), gk(mem1(g)) == g))), [cnt(g)]), trusted=tag)
+    ctx.assume(T.ForAll([k], z3.Implies(z3.And(0 <= k, T.lt(k, n)), cnt(gk(k)) >= 1), [gk(k)] if _is_uf_app(gk(k)) else None))
+    ctx.assume(T.ForAll(
+        [k], z3.Implies(z3.And(0 <= k, T.lt(k, n)),
+                        z3.Or(z3.And(cnt(gk(k)) == 1, acc(gk(k)) == T.tz(F1(aval(k)))),
+                              z3.And(0 <= oth(k), T.lt(oth(k), n), oth(k) != k, gk(oth(k)) == gk(k)))), [oth(k)]))
+    ctx.assume(T.ForAll(
+        [k, k2], z3.Implies(z3.And(0 <= k, k < k2, T.lt(k2, n), gk(k) == gk(k2)),
+                            z3.Or(z3.And(cnt(gk(k)) == 2, acc(gk(k)) == T.tz(F2(aval(k), aval(k2)))),
+                                  z3.And(0 <= thr(k, k2), T.lt(thr(k, k2), n), thr(k, k2) != k, thr(k, k2) != k2, gk(thr(k, k2)) == gk(k)))), [thr(k, k2)]))
+    zero = cast_elem(0, rdt)
+    ctx.assume(T.ForAll([g], z3.Implies(cnt(g) == 0, acc(g) == T.tz(zero)), [acc(g)]))
+    if kind == "callable":
+        # the reducer sees the whole group: its value is the reducer applied to a bag of that size
+        ctx.assume(T.ForAll([g], z3.Implies(cnt(g) >= 1, acc(g) == T.tz(cast_elem(it.call(func, [SymBag(cnt(g))], {}), rdt))), [acc(g)]))
+    res = Arr((G,), lambda gg: acc(T.tz(gg)), rdt)
+    res.ghost["accum"] = (cnt, mem1, oth, thr, acc)
+    ctx.log_ghost("accumarray", (cnt, mem1, oth, thr, acc))
+    return res
+
+
+def _is_uf_app(t):
+    return T.is_sym(t) and z3.is_app(t) and t.num_args() > 0 and t.decl().kind() == z3.Z3_OP_UNINTERPRETED
